@@ -146,6 +146,8 @@ def run(ctx):
             if r:
                 n_str["ok"] += 1
             return r
+        if site.kind == "assert-bounds":
+            return strguard.discharge_bytes(F_, cg_, site, pr)
         return None
 
     def span_rule(F_, cg_, site, pr):
